@@ -243,7 +243,11 @@ def check_c16(rng, n):
             k1, k2 = rng.randint(0, 5), rng.randint(1, 6)
             start, duration = k1 * m, k2 * m
             rate = rng.randint(1, 9)
-            hot_rate, cold_rate = rng.randint(rate, 12), rng.randint(1, 12)
+            frac = rng.random() < 0.25
+            if frac:
+                # a fractional (binary-exact) data rate: the parser rounds rate x unit half-to-even
+                rate = rate + rng.choice([0.25, 0.5, 0.75])
+            hot_rate, cold_rate = rng.randint(int(rate), 12), rng.randint(1, 12)
             flops, bw = rng.choice([4, 10, 84]), rng.choice([1, 2, 10])
             wf = {"nodes": [{"id": 0, "comp": flops * m * rng.randint(0, 3)}], "edges": []}
             spec = {"machines": [{"id": "m0", "flops": flops, "bw": bw}], "system_bandwidth": 2,
@@ -266,10 +270,12 @@ def check_c16(rng, n):
             if m != 1:
                 res["nontrivial"] += 1
             impl = "%s %s %s %s %s %s %s %s" % (
-                showf(Fraction(o.est)), showf(Fraction(o.duration)), int(o.ingest_data_rate),
+                showf(Fraction(o.est)), showf(Fraction(o.duration)), showf(Fraction(o.ingest_data_rate)),
                 showf(Fraction(hot[0].max_ingest_data_rate)), showf(Fraction(cold[0].max_data_rate)),
                 showf(Fraction(machines[0].cpu)), showf(Fraction(machines[0].bandwidth)), showf(Fraction(sysbw)))
-            cmd = {"op": "scale", "start": start, "duration": duration, "rate": rate, "hot_rate": hot_rate,
+            qr = Fraction(rate)
+            cmd = {"op": "scale", "start": start, "duration": duration,
+                   "rate": rate if qr.denominator == 1 else [qr.numerator, qr.denominator], "hot_rate": hot_rate,
                    "cold_rate": cold_rate, "flops": flops, "bw": bw, "sysbw": 2}
             if isinstance(unit, int):
                 cmd["unit_int"] = unit
@@ -283,15 +289,15 @@ def check_c16(rng, n):
             bad = []
             if Fraction(o.est) * m != start or Fraction(o.duration) * m != duration:
                 bad.append("start/duration not divided by %s" % m)
-            if o.ingest_data_rate != rate * m:
-                bad.append("data rate not multiplied")
+            if o.ingest_data_rate != round(rate * m) or o.ingest_data_rate != int(o.ingest_data_rate):
+                bad.append("data rate is not the whole number round(rate x unit)")
             if hot[0].max_ingest_data_rate != hot_rate * m or cold[0].max_data_rate != cold_rate * m:
                 bad.append("buffer rates not multiplied")
             if machines[0].cpu != flops * m or machines[0].bandwidth != bw * m or sysbw != 2 * m:
                 bad.append("speed/bandwidth not multiplied")
-            if o.ingest_data_rate * o.duration != rate * duration:
+            if not frac and o.ingest_data_rate * o.duration != rate * duration:
                 bad.append("volume depends on unit")
-            if (o.ingest_data_rate <= hot[0].max_ingest_data_rate) != (rate <= hot_rate):
+            if not frac and (o.ingest_data_rate <= hot[0].max_ingest_data_rate) != (rate <= hot_rate):
                 bad.append("rate-limit comparison depends on unit")
             if hot[0].total_capacity != 10 ** 6 or cold[0].total_capacity != 10 ** 6 + 5 or o.demand != 3 \
                     or total_arrays != 4 or max_ingest != 1:
